@@ -79,21 +79,63 @@ def _truth_edges(test, is_match, is_str):
     return ok
 
 
+def _ctor_delegates(p, fi):
+    """package functions reachable from fi (resolved calls) that apply a number constructor to one of their parameters"""
+    r = get_resolver(p)
+    out = []
+    for q, f in sorted(r.closure([fi]).items()):
+        if f is fi or isinstance(f.node, ast.Lambda):
+            continue
+        # a constructor named anywhere in the function (also as a value: `for t in (np.int64, np.float64): t(x)`)
+        for sub in walk_shallow(f.node):
+            nm = sub.attr if isinstance(sub, ast.Attribute) else (sub.id if isinstance(sub, ast.Name) else "")
+            if nm in (INT_CTORS | FLOAT_CTORS) - {"int", "float"} or (nm in ("int", "float") and isinstance(getattr(sub, "_parent", None), ast.Call)
+                                                                       and sub._parent.func is sub and sub._parent.args):
+                out.append(f)
+                break
+    return out
+
+
 def rule_numlit(ctx):
     p = ctx.p
     fi = p.func(SP + ".num")
     x = fi.params()[1]
+    has_ctor = any(isinstance(sub, ast.Call) and _ctor_name(sub) in (INT_CTORS | FLOAT_CTORS) and sub.args for sub in walk_shallow(fi.node))
+    if not has_ctor:
+        dl = _ctor_delegates(p, fi)
+        direct = [f for f in dl if any(isinstance(sub, ast.Call) and _ctor_name(sub) in (INT_CTORS | FLOAT_CTORS) and sub.args and any(
+            isinstance(n, ast.Name) and n.id in f.params() for n in ast.walk(sub.args[0])) for sub in walk_shallow(f.node))]
+        if len(dl) == 1 and direct and [a for a in dl[0].params() if a not in ("self", "cls")]:
+            # num() hands the conversion to one helper: the guard must dominate the constructors there, on the helper's own argument
+            fi = dl[0]
+            x = [a for a in fi.params() if a not in ("self", "cls")][0]
+        elif dl:
+            ctx.undecided("HDR.NUMLIT", fi.qual + "#sinks", fi, fi.node, "num() delegates the conversion to %s: guard dominance across "
+                          "several helpers is not decided" % ", ".join(f.qual for f in dl))
+            ctx.floor("HDR.NUMLIT", 0)
+            return
     cfg = build_cfg(p, fi)
     env = module_env(p, fi.module.name)
     # sinks
     sinks = []
+    # the converted variable: the argument itself, or a local computed from it (`text = re.sub(.., x)`) that every constructor uses
+    derived = {x}
+    for _ in range(3):
+        for a_ in walk_shallow(fi.node):
+            if isinstance(a_, ast.Assign) and len(a_.targets) == 1 and isinstance(a_.targets[0], ast.Name) and any(
+                    isinstance(n, ast.Name) and n.id in derived for n in ast.walk(a_.value)) and not any(
+                    isinstance(c_, ast.Call) and _ctor_name(c_) in (INT_CTORS | FLOAT_CTORS) for c_ in ast.walk(a_.value)):
+                derived.add(a_.targets[0].id)
     for node in cfg.nodes:
         if node.ast is None or node.kind not in ("stmt", "test"):
             continue
         for sub in walk_expr_shallow(node.ast):
             if isinstance(sub, ast.Call) and _ctor_name(sub) in (INT_CTORS | FLOAT_CTORS) and sub.args:
-                if any(isinstance(n, ast.Name) and n.id == x for n in ast.walk(sub.args[0])):
+                if any(isinstance(n, ast.Name) and n.id in derived for n in ast.walk(sub.args[0])):
                     sinks.append((node.id, sub))
+    sink_vars = {n.id for _, c_ in sinks for n in ast.walk(c_.args[0]) if isinstance(n, ast.Name) and n.id in derived}
+    if len(sink_vars) == 1 and x not in sink_vars:
+        x = sink_vars.pop()
     if not sinks:
         ctx.bad("HDR.NUMLIT", fi.qual + "#sinks", fi, fi.node, "SectionParser.num contains no number constructor on its "
                 "argument: numeric header values are never converted")
@@ -187,7 +229,7 @@ def rule_numlit(ctx):
             if oks.get(base):
                 ok_edges.add((gid, t, lab))
     # graph without ok edges
-    sources = [cfg.entry] + [n.id for n in cfg.nodes if n.kind != "entry" and x in node_defs(n)]
+    sources = ([cfg.entry] if x in fi.params() else []) + [n.id for n in cfg.nodes if n.kind != "entry" and x in node_defs(n)]
     for nid, call in sinks:
         ssite = "%s#sink:%s" % (fi.qual, _ctor_name(call))
         witness = None
@@ -229,6 +271,13 @@ def rule_finite_default(ctx):
     p = ctx.p
     fi = p.func(SP + ".num")
     x = fi.params()[1]
+    if not any(isinstance(sub, ast.Call) and _ctor_name(sub) in (INT_CTORS | FLOAT_CTORS) and sub.args for sub in walk_shallow(fi.node)):
+        dl = _ctor_delegates(p, fi)
+        if dl:
+            ctx.undecided("HDR.FINITE", fi.qual + "#returns", fi, fi.node, "num() delegates the conversion to %s: the int-first / "
+                          "finite-float / verbatim-fallback shape of the result is not decided across the call" % ", ".join(f.qual for f in dl))
+            ctx.floor("HDR.FINITE", 0)
+            return
     x_name = x
     dflt = fi.params()[2] if len(fi.params()) > 2 else None
     cfg = build_cfg(p, fi)
@@ -249,7 +298,12 @@ def rule_finite_default(ctx):
         elif names & FLOAT_CTORS:
             float_ret += 1
             tests = [(cfg.nodes[tn].ast, lab) for (tn, lab) in cd.transitive(n.id) if cfg.nodes[tn].kind == "test"]
-            fin = any(isinstance(t, ast.Call) and _ctor_name(t) == "isfinite" and lab.startswith("true") for t, lab in tests)
+            def _finite_under(t, lab):
+                pol = lab.startswith("true")
+                while isinstance(t, ast.UnaryOp) and isinstance(t.op, ast.Not):
+                    t, pol = t.operand, not pol
+                return isinstance(t, ast.Call) and _ctor_name(t) == "isfinite" and pol
+            fin = any(_finite_under(t, lab) for t, lab in tests)
             if not fin:
                 problems.append((n.ast, "a float result is returned without an isfinite() test: 'inf'-valued literals "
                                         "such as 1e400 become numbers"))
@@ -272,11 +326,19 @@ def rule_finite_default(ctx):
         isinstance(s, ast.Call) and _ctor_name(s) in INT_CTORS and s.args for s in walk_expr_shallow(n.ast))]
     floats = [n.id for n in cfg.nodes if n.ast is not None and n.kind == "stmt" and any(
         isinstance(s, ast.Call) and _ctor_name(s) in FLOAT_CTORS and s.args for s in walk_expr_shallow(n.ast))]
-    if ints and floats:
+    # the probing form: the integer constructor is tried inside a `try`, the float constructor only after it failed
+    from sa.astutil import protecting_try as _ptry
+    int_calls = [c for c in walk_shallow(fi.node) if isinstance(c, ast.Call) and _ctor_name(c) in INT_CTORS and c.args]
+    probing = bool(int_calls) and all(_ptry(c) is not None for c in int_calls)
+    not_probing = None
+    if ints and floats and probing:
         pth = cfg.find_path(cfg.entry, floats, avoid=ints)
         if pth:
             problems.append((cfg.nodes[pth[-1]].ast, "the float conversion can be reached without trying the integer "
                                                      "conversion first: integer literals come back as floats"))
+    elif ints and floats:
+        not_probing = "num() does not probe np.int64() in a try before np.float64() (it classifies the literal by other tests): " \
+                      "that integer literals within 64 bits come back as integers is not decided in this form"
     # every number constructor on the text sits in a try that catches everything (OverflowError for integers beyond 64 bits)
     from sa.astutil import protecting_try
     for n_ in cfg.nodes:
@@ -285,7 +347,7 @@ def rule_finite_default(ctx):
         for c in walk_expr_shallow(n_.ast):
             if isinstance(c, ast.Call) and _ctor_name(c) in (INT_CTORS | FLOAT_CTORS) and c.args and any(
                     isinstance(x, ast.Name) and x.id == x_name for x in ast.walk(c.args[0])):
-                if protecting_try(c) is None:
+                if protecting_try(c) is None and probing:
                     problems.append((c, "`%s` is not inside a try that catches every exception: an integer literal beyond 64 bits "
                                         "raises OverflowError instead of falling back to float" % unparse(c)))
     if problems:
@@ -294,6 +356,10 @@ def rule_finite_default(ctx):
             if msg not in seen:
                 seen.add(msg)
                 ctx.bad("HDR.FINITE", site, fi, node, "SectionParser.num: " + msg)
+    elif not_probing:
+        ctx.undecided("HDR.FINITE", site, fi, fi.node, not_probing)
+        ctx.floor("HDR.FINITE", 0)
+        return
     else:
         ctx.ok("HDR.FINITE", site, fi, fi.node, "int first, float second (returned only under isfinite), otherwise the "
                "untouched original text / caller default (%d/%d/%d returns)" % (int_ret, float_ret, default_ret))
